@@ -8,12 +8,12 @@ from ..core import canon
 from ..runner import Suite
 
 MANIFEST = dict(
-    text="Lean 4 theorems about an association-list model of InMemorySessionManager with the clock and the id supply as inputs, for operation histories of any length: refinement to the standard library's finite map (Std.ExtHashMap: insert/erase/modify/filter/size) with equal outputs for every operation; expiry keeps exactly the sessions not idle for longer than the limit, unchanged, and counts the rest; the code's collect-then-delete loop equals that filter; live ids are pairwise distinct and, under a fresh id supply, no create/initialize ever hits a live id; initialize adds exactly one session holding the client's info and the answered version (for an arbitrary answer policy); dispatch with a session id updates that session's activity and nothing else. Tied to the code by a correspondence run of the real SessionManager and ProtocolHandler under a patched integer clock: every operation word up to the stated length over a 3-session universe plus seeded histories up to length 200, outputs and the whole store compared after every step; 'listing returns a copy' is decided there by mutating the returned dict.",
+    text="Lean 4 theorems about an association-list model of InMemorySessionManager with the clock and the id supply as inputs, for operation histories of any length: refinement to the standard library's finite map (Std.ExtHashMap: insert/erase/modify/filter/size) with equal outputs for every operation; expiry keeps exactly the sessions not idle for longer than the limit, unchanged, and counts the rest; the code's collect-then-delete loop equals that filter; live ids are pairwise distinct and, under a fresh id supply, no create/initialize ever hits a live id; initialize adds exactly one session holding the client's info and the answered version (for an arbitrary answer policy); dispatch with a session id updates that session's activity and nothing else. Tied to the code by a correspondence run of the real SessionManager and ProtocolHandler under a patched integer clock: every operation word up to the stated length over a 3-session universe plus seeded histories up to length 200, outputs and the whole store compared after every step; 'listing returns a copy' is decided there by mutating the returned dict. Extension: every message kind through ProtocolHandler (no method / unknown / handler returns, raises, nonsense; activity is refreshed after the no-method exit and before the handler), the orphan session of an id-less initialize, a scripted repeating id supply (overwrite), and generate_session_id regenerated from source with format and injectivity theorems over canonical uuid texts.",
     note="Trusted: Lean kernel (propext, Classical.choice, Quot.sound), Std.ExtHashMap as the meaning of 'a simple map', uuid4 freshness (explicit hypothesis of c19_ids_unique; every id the implementation returns is also checked to be new), the harness and its clock seam. Python aliasing has no counterpart in the model: the copy semantics of list_sessions is checked only by the correspondence run.",
     technique="Lean 4 refinement proof (association list -> Std.ExtHashMap) + model-based differential run of operation sequences against the real code with a controlled clock",
     design="5/C19",
 )
-GEN: list[str] = []
+GEN = ["SessionId"]
 THEOREMS = [
     "c19_refines_map",
     "c19_cleanup_exact",
@@ -21,6 +21,12 @@ THEOREMS = [
     "c19_ids_unique",
     "c19_initialize_creates_one",
     "c19_activity_on_dispatch",
+    "c19_activity_on_every_message_kind",
+    "c19_initialize_without_id_leaves_a_session",
+    "c19_repeated_id_overwrites",
+    "c19_session_id_translated",
+    "c19_session_id_format",
+    "c19_session_id_injective",
 ]
 RULE = (
     "operation histories over {tick, create, get, update activity, delete, cleanup(max_age), list+mutate, clear, "
@@ -133,7 +139,7 @@ def seeded(rng, maxlen):
                     spec["reuse"] = True
                 if rng.random() < 0.85:
                     spec["version"] = rng.choice(SUPPORTED) if rng.random() < 0.45 else rng.choice(ODD_VERSIONS)
-            ops.append(["I", rng.choice([None, None, ref()]), spec, rng.choice([0, 1, -5, "", "abc", "7"])])
+            ops.append(["I", rng.choice([None, None, ref()]), spec, rng.choice([0, 1, -5, "", "abc", "7", None])])
             issued += 1
         elif r < 0.48:
             ops.append(["G", ref()])
@@ -152,7 +158,11 @@ def seeded(rng, maxlen):
         else:
             m = rng.choice(R_METHODS)
             ops.append(["R", rng.choice([None, ref(), ref(), ref()]), m[0], m[1]])
-    return {"ops": ops}
+    case = {"ops": ops}
+    if rng.random() < 0.12:
+        # our own id supply, repeats included (a subclass overriding generate_session_id)
+        case["supply"] = [rng.randrange(3) for _ in range(rng.randint(1, 8))]
+    return case
 
 
 # ---- reference dict (the property oracle; independent of the Lean model) ---------------------
@@ -170,13 +180,14 @@ KEY_OF = {"C": "create", "G": "lookup", "U": "update-activity", "D": "delete", "
 def reference_check(case, obs):
     """walk the history with a plain dict; first disagreement -> (key, what, expected)"""
     ref: dict[int, list] = {}
+    scripted = case.get("supply") is not None  # the id supply is ours and may repeat: dict assignment then replaces
     for n, (op, st) in enumerate(zip(case["ops"], obs["steps"])):
         code, now, out = op[0], st["now"], st["out"]
         want_out = None
         lenient_last = None  # session whose last-activity may be old or now
         must_touch = None  # session whose last-activity must be now
         if code == "C":
-            if not st["fresh"]:
+            if not st["fresh"] and not scripted:
                 return ("id-not-unique", f"step {n}: create_session returned an id that was handed out before", {"fresh": True})
             ref[out[1]] = [op[1], op[2], now, now]
         elif code == "G":
@@ -207,11 +218,21 @@ def reference_check(case, obs):
                 return ("listing", f"step {n}: list_sessions() contains {st['alien']} ids that were never handed out", None)
             if st.get("intruder_visible"):
                 return ("listing-copy", f"step {n}: an entry added to the dict returned by list_sessions() is visible in the store", {"store": "unchanged"})
+        elif code == "I" and op[3] is None:
+            # an initialize without id is not a successful initialize: whether it leaves a session behind is not fixed by
+            # the property (the code does leave one); what is there afterwards is taken as observed, the rest must not change
+            if out[1] is not None:
+                got = next((r for r in st["snap"]["sessions"] if r[0] == out[1]), None)
+                if got is not None:
+                    spec = op[2]
+                    client = spec["client"] if ("client" in spec and not spec.get("noparams")) else got[1]
+                    ref[out[1]] = [client, got[2], now, now]
+            lenient_last = op[1]
         elif code == "I":
             if st["has_result"]:
                 if out[1] is None:
                     return ("initialize", f"step {n}: successful initialize returned no session id", None)
-                if not st["fresh"]:
+                if not st["fresh"] and not scripted:
                     return ("id-not-unique", f"step {n}: initialize returned a session id that was handed out before", {"fresh": True})
                 got = next((r for r in st["snap"]["sessions"] if r[0] == out[1]), None)
                 spec = op[2]
@@ -274,6 +295,15 @@ class Histories(Suite):
             out.append({"ops": [C, ["G", g], ["U", g], ["D", g], ["R", g, "ping", 0], ["I", g, {"client": {}}, ""], ["N"], ["G", 0]]})
         for a in (0, 0.0, 0.5, 1, 1.5, -1, -0.5):
             out.append({"ops": [C, ["X", a], T1, ["U", 0], ["X", a], T1, ["X", a], ["T", 1], ["X", a], ["N"]]})
+        # directed: an initialize WITHOUT id (with and without a carried session id), then everything that could see its session
+        for sp in ({"client": {"name": "n"}, "version": "2025-06-18"}, {"version": "1999-01-01"}, {"noparams": True}):
+            out.append({"ops": [["I", None, sp, None], ["N"], ["L", "none"], ["G", 0], T1, ["X", 0], ["N"]]})
+            out.append({"ops": [C, T1, ["I", 0, sp, None], ["G", 0], ["G", 1], ["I", 1, sp, 5], T1, T1, ["X", 1], ["L", "both"]]})
+        # directed: every id supply over {0,1} of length 3 (repeats = a live or a dead id handed out again)
+        for sup in itertools.product((0, 1), repeat=3):
+            out.append({"supply": list(sup), "ops": [C, T1, ["I", None, {"client": {"name": "s"}, "version": "2025-06-18"}, 1], ["N"], T1,
+                                                     ["C", {"name": "third"}, "2025-03-26"], ["G", 0], ["G", 1], ["N"], ["X", 1], ["L", "both"]]})
+            out.append({"supply": list(sup), "ops": [C, ["D", 0], C, C, ["N"], ["U", 0], K, C, ["G", 0]]})
         # directed: reuse — the same initialize envelope object dispatched three times, many sessions at once
         sp = {"client": {"name": "again"}, "version": "2025-06-18", "reuse": True}
         out.append({"ops": [["I", None, sp, 1], ["I", None, sp, 1], ["I", 0, sp, 1], ["N"], ["D", 1], ["I", 1, sp, 1], ["L", "pop"]]})
@@ -327,6 +357,13 @@ class Histories(Suite):
             tag += "+Rerr"
         if any(op[0] == "X" and op[1] is None for op in case["ops"]):
             tag += "+Xdefault"
+        if any(op[0] == "I" and op[3] is None for op in case["ops"]):
+            tag += "+Isilent"
+        if case.get("supply") is not None:
+            tag += "+supply"
+        kinds = {H.kind_of(op[2], op[3]) for op in case["ops"] if op[0] == "R"}
+        if kinds - {"handlerReturned"}:
+            tag += "+" + ",".join(sorted(k[:7] for k in kinds - {"handlerReturned"}))
         return f"len{'<=6' if n <= 6 else ('<=40' if n <= 40 else '<=200')}/{tag}"
 
     def nontrivial(self, case, o):
@@ -352,5 +389,130 @@ class Histories(Suite):
                 yield {"ops": ops[:i] + [["L", "pop"]] + ops[i + 1:]}
 
 
+class IdFormat(Suite):
+    """generate_session_id: the real method with uuid.uuid4 replaced by known uuids vs the function regenerated from its
+    source (Gen/SessionId.lean); plus real draws.  Oracle: distinct uuids give distinct ids (ids are as unique as uuids)."""
+    name = "idformat"
+
+    def cases(self, ctx, budget):
+        rng = ctx.sub_rng("c19id", budget)
+        n = 300 if budget == "quick" else 20000
+        ints = [0, 1, 2 ** 128 - 1, 2 ** 127, 0x123e4567e89b42d3a456426614174000, 0xaaaaaaaaaaaaaaaaaaaaaaaaaaaaaaaa]
+        ints += [1 << k for k in range(0, 128, 7)] + [rng.getrandbits(128) for _ in range(n)]
+        return [{"uuid": "%032x" % i} for i in ints] + [{"draws": 500 if budget == "quick" else 20000}]
+
+    def impl_batch(self, cases):
+        import uuid as _uuid
+        from chuk_mcp.server.session import base as B
+        from chuk_mcp.server.session.memory import InMemorySessionManager
+
+        mgr = InMemorySessionManager()
+        out = []
+        seen = {}
+        for c in cases:
+            if "draws" in c:
+                ids = [mgr.generate_session_id() for _ in range(c["draws"])]
+                out.append({"distinct": len(set(ids)), "n": len(ids), "types": sorted({type(x).__name__ for x in ids}),
+                            "shapes": sorted({(len(x), all(ch in "0123456789abcdef" for ch in x)) for x in ids if isinstance(x, str)})})
+                continue
+            u = _uuid.UUID(hex=c["uuid"])
+            target, attr = (B.uuid, "uuid4") if hasattr(B, "uuid") else ((B, "uuid4") if hasattr(B, "uuid4") else (None, None))
+            if target is None:
+                out.append({"seam": "lost"})
+                continue
+            old = getattr(target, attr)
+            setattr(target, attr, lambda u=u: u)
+            try:
+                sid = mgr.generate_session_id()
+            finally:
+                setattr(target, attr, old)
+            o = {"id": sid, "text": str(u)}
+            if isinstance(sid, str):
+                o["clash"] = seen.get(sid, c["uuid"]) != c["uuid"]
+                seen.setdefault(sid, c["uuid"])
+            out.append(o)
+        self._last = {id(c): o for c, o in zip(cases, out)}
+        return out
+
+    def model_line(self, case):
+        o = self._last.get(id(case))
+        if "uuid" not in case or not o or "text" not in o:
+            return None
+        return {"m": "sessionid", "u": [ord(ch) for ch in o["text"]]}
+
+    def model_obs(self, out, case):
+        return "".join(chr(x) for x in out["id"]) if "id" in out else out
+
+    def compare(self, case, o, m):
+        return None if o.get("id") == m else "differs"
+
+    def oracle(self, case, o):
+        if "draws" in case:
+            if o["distinct"] != o["n"]:
+                return ("id-not-unique", f"{o['n']} calls of generate_session_id gave {o['distinct']} distinct ids", {"distinct": o["n"]})
+            return None
+        if o.get("clash"):
+            return ("id-not-unique", f"two different uuids give the same session id {o['id']!r}", None)
+        return None
+
+    def kind(self, case, o):
+        return "idformat/" + ("draws" if "draws" in case else ("seam-lost" if o.get("seam") else "scripted-uuid"))
+
+
+class BaseContract(Suite):
+    """The abstract base class (informational: no demand, nothing compared): it cannot be instantiated, a subclass
+    that delegates to the abstract defaults gets None back from each, and inherits a working generate_session_id."""
+    name = "basecontract"
+    uses_model = False
+
+    def cases(self, ctx, budget):
+        return [{"probe": "abstract-defaults"}]
+
+    def impl_batch(self, cases):
+        from chuk_mcp.server.session.base import BaseSessionManager
+
+        out = []
+        for _ in cases:
+            o = {}
+            try:
+                BaseSessionManager()
+                o["instantiable"] = True
+            except TypeError:
+                o["instantiable"] = False
+
+            class Delegating(BaseSessionManager):
+                def create_session(self, client_info, protocol_version, metadata=None):
+                    return super().create_session(client_info, protocol_version, metadata)
+
+                def get_session(self, session_id):
+                    return super().get_session(session_id)
+
+                def update_activity(self, session_id):
+                    return super().update_activity(session_id)
+
+                def cleanup_expired(self, max_age=3600):
+                    return super().cleanup_expired(max_age)
+
+                def list_sessions(self):
+                    return super().list_sessions()
+
+                def delete_session(self, session_id):
+                    return super().delete_session(session_id)
+
+            try:
+                d = Delegating()
+                o["defaults"] = [repr(d.create_session({}, "v")), repr(d.get_session("x")), repr(d.update_activity("x")),
+                                 repr(d.cleanup_expired()), repr(d.list_sessions()), repr(d.delete_session("x"))]
+                sid = d.generate_session_id()
+                o["inherited_id"] = [type(sid).__name__, len(sid) if isinstance(sid, str) else None]
+            except Exception as ex:
+                o["error"] = type(ex).__name__
+            out.append(o)
+        return out
+
+    def kind(self, case, o):
+        return "basecontract/instantiable=%s/defaults=%s" % (o.get("instantiable"), ",".join(o.get("defaults", ["?"])))
+
+
 def suites():
-    return [Histories()]
+    return [Histories(), IdFormat(), BaseContract()]
